@@ -74,44 +74,7 @@ def run(ctx, res):
         c.update(n=n, A=np.ascontiguousarray(drex.rotations(rng, n, "random")), f=rng.dirichlet(np.ones(n)), regime=4 if n % 2 else 6,
                  kinds=("random", f"n={n}", c["kinds"][2]))
         cases.append(c)
-    # dtype / memory-layout variants of the SAME numbers: must return the same finite rates without raising
-    variants = []
-    for j in range(6 if not ctx["thorough"] else 40):
-        c = drex.make_case(rng, j, nmax=6)
-        c["A"] = np.ascontiguousarray(drex.rotations(rng, c["n"], "axis"))       # entries 0, +-1: exact in every dtype
-        onehot = np.zeros(c["n"])
-        onehot[int(rng.integers(0, c["n"]))] = 1.0
-        c["f"] = onehot
-        L = drex.velocity_gradient(rng, "dyadic")
-        c.update(L=L, D=(L + L.T) / 2)
-        variants.append(("base", j, c))
-        variants.append(("int_fractions", j, dict(c, f=onehot.astype(np.int64))))
-        variants.append(("float32_fractions", j, dict(c, f=onehot.astype(np.float32))))
-        variants.append(("fortran_orientations", j, dict(c, A=np.asfortranarray(c["A"]))))
-        variants.append(("strided_fractions", j, dict(c, f=np.repeat(onehot, 2)[::2])))
-        variants.append(("float32_orientations", j, dict(c, A=c["A"].astype(np.float32))))
-        variants.append(("int_regime_np", j, dict(c, regime=np.int64(c["regime"]), phase=np.uint8(c["phase"]), fabric=np.uint8(c["fabric"]))))
-    v_int = [drex.call_derivatives(c) for (_, _, c) in variants]
-    v_jit = drex.run_jit([c for (_, _, c) in variants])
-    base = {}
-    for (name, j, c), oi_, oj_ in zip(variants, v_int, v_jit):
-        res.evaluations += 1
-        res.count("variant:" + name)
-        for tag, o in (("interpreted", oi_), ("jit", oj_)):
-            rep = {"variant": name, "path": tag, "phase": int(c["phase"]), "fabric": int(c["fabric"]), "regime": int(c["regime"]),
-                   "A": np.asarray(c["A"], float).tolist(), "f": np.asarray(c["f"], float).tolist(), "L": c["L"].tolist()}
-            if o[0] != "ok":
-                res.violation(f"total:variant:{name}:raises:{o[1]}", f"derivatives raised {o[1]} for {name} inputs ({tag}): {o[2][:150]}", rep)
-                continue
-            if not (np.isfinite(o[1]).all() and np.isfinite(o[2]).all()):
-                res.violation(f"total:variant:{name}:nonfinite", f"non-finite rates for {name} inputs ({tag})", rep)
-                continue
-            if name == "base":
-                base[(j, tag)] = o
-            elif (j, tag) in base:
-                b = base[(j, tag)]
-                if not (np.allclose(o[1], b[1], rtol=1e-6, atol=1e-9) and np.allclose(o[2], b[2], rtol=1e-6, atol=1e-9)):
-                    res.violation(f"total:variant:{name}:differs", f"{name} inputs (same numbers) give other rates ({tag})", rep)
+    drex.variant_checks(res, rng, ctx, "total")
     outs_int = [drex.call_derivatives(c) for c in cases]
     outs_jit = drex.run_jit(cases + ([big] if ctx["thorough"] else []))
     if ctx["thorough"]:
